@@ -276,7 +276,18 @@ def write_hash_list(hash_list: MHLHashList, file_path: str):
 
 
 def _write_xml_element_to_file(file, xml_element, indent: str):
-    xml_string = etree.tostring(xml_element, pretty_print=True, encoding="unicode")
+    # a line feed inside a text (file and folder names may contain one) is written as the character reference &#10;
+    # so that the line-wise indentation below cannot change the text
+    # the placeholder: absent from the whole element, and made of two different characters so that it cannot run
+    # into an equal character next to it
+    content = etree.tostring(xml_element, encoding="unicode")
+    mark = "\ue000\ue001"
+    while mark in content:
+        mark += "\ue001"
+    for element in xml_element.iter():
+        if element.text and "\n" in element.text:
+            element.text = element.text.replace("\n", mark)
+    xml_string = etree.tostring(xml_element, pretty_print=True, encoding="unicode").replace(mark, "&#10;")
     _write_xml_string_to_file(file, xml_string, indent)
 
 
